@@ -44,33 +44,33 @@ void Graph::add_outward_edge(size_t src, uint64_t dst, const simd_bits<64> &obs_
 
 void Graph::add_edges_from_targets_with_no_separators(
     SpanRef<const DemTarget> targets, bool ignore_ungraphlike_errors) {
-    FixedCapVector<uint64_t, 2> detectors;
+    std::vector<uint64_t> detectors;
     simd_bits<64> obs_mask(num_observables);
 
     // Collect detectors and observables.
     for (const auto &t : targets) {
         if (t.is_relative_detector_id()) {
             // A detector listed twice is flipped twice: the two occurrences cancel.
-            uint64_t *repeated = detectors.find(t.raw_id());
+            auto repeated = std::find(detectors.begin(), detectors.end(), t.raw_id());
             if (repeated != detectors.end()) {
                 *repeated = detectors.back();
                 detectors.pop_back();
                 continue;
             }
-            if (detectors.size() == 2) {
-                if (ignore_ungraphlike_errors) {
-                    return;
-                }
-                throw std::invalid_argument(
-                    "The detector error model contained a non-graphlike error mechanism.\n"
-                    "You can ignore such errors using `ignore_ungraphlike_errors`.\n"
-                    "You can use `decompose_errors` when converting a circuit into a model "
-                    "to ensure no such errors are present.\n");
-            }
             detectors.push_back(t.raw_id());
         } else if (t.is_observable_id()) {
             obs_mask[t.raw_id()] ^= true;
         }
+    }
+    if (detectors.size() > 2) {
+        if (ignore_ungraphlike_errors) {
+            return;
+        }
+        throw std::invalid_argument(
+            "The detector error model contained a non-graphlike error mechanism.\n"
+            "You can ignore such errors using `ignore_ungraphlike_errors`.\n"
+            "You can use `decompose_errors` when converting a circuit into a model "
+            "to ensure no such errors are present.\n");
     }
 
     // Add edges between detector nodes.
